@@ -120,7 +120,7 @@ pub fn compile(sc: &K16) -> KChild {
         }
         events.push(KEvent { at_us: t_end, ev: KEv::Key { code: "c:q".into(), ctrl: false, shift: false, alt: false } });
     }
-    KChild { connects, events, proc_delay_us: sc.proc_delay_us.clone(), coalesce: sc.coalesce.clone(), step_budget: 60_000 }
+    KChild { gpsd: None, ev_delay_us: vec![], connects, events, proc_delay_us: sc.proc_delay_us.clone(), coalesce: sc.coalesce.clone(), step_budget: 60_000 }
 }
 
 // ---------------------------------------------------------------------------- generation
